@@ -5,7 +5,7 @@ CONSTANTS
   MaxLen = 6
   Limit = 4
   Chunked = TRUE
-  NoRangeLen = 4
+  NoRangeLen = 6
   CodeDen <- Den1
   Dims = 1
 VIEW View
